@@ -11,8 +11,20 @@ package cluster
 // Node.AppendMessageEvent -> appendMessageEventLocal -> cache / finish flush /
 // durable path run unmodified; only Raft replication is replaced by a direct
 // apply. Cache loss is injected through the code's own paths:
-// leadership loss (router.UpdateSlotLeaders + publishRouteAuthorityChanges),
+// route updates installed exactly the way production installs them
+// (Node.updateRouteAuthorityTable around router.UpdateSlotLeaders /
+// router.UpdateControlSnapshot / router.AdvanceRevision, see
+// refreshDefaultSlotLeaders, installObservedRemoteSlotLeaders, applySnapshot),
 // resetAfterRestore, pauseForRestore/resumeAfterRestore.
+//
+// Routing shape: 4 hash slots, Slots 1..3, nodes 1..3 (node 1 is the node under
+// test). Message m1 lives on channel verifC40Channel, m2 on a channel of another
+// hash slot. A hash slot's authority is local (leader 1), remote (2, 3) or
+// leaderless (0: the hash slot was assigned by a control snapshot to a Slot whose
+// leader has not been observed, the only way the router produces a leaderless
+// route — UpdateSlotLeaders ignores Leader==0 and older terms). The harness
+// keeps an independent model of the table (documented router rules) and derives
+// from it, per message, whether local authority was lost by an update.
 
 import (
 	"bytes"
@@ -46,11 +58,43 @@ const (
 
 var verifC40Msgs = []string{"m1", "m2"}
 
+const (
+	verifC40HashSlots = uint16(4)
+	verifC40Local     = uint64(1)
+)
+
+var verifC40SlotIDs = []uint32{1, 2, 3}
+
+// verifC40Channel2: a channel whose hash slot differs from verifC40Channel's.
+var verifC40Channel2 = func() string {
+	base := routing.HashSlotForKey(verifC40Channel, verifC40HashSlots)
+	for i := 0; ; i++ {
+		name := fmt.Sprintf("g-other-%d", i)
+		if routing.HashSlotForKey(name, verifC40HashSlots) != base {
+			return name
+		}
+	}
+}()
+
+func verifC40ChannelOf(no string) string {
+	if no == "m2" {
+		return verifC40Channel2
+	}
+	return verifC40Channel
+}
+
+func verifC40HashSlotOf(no string) uint16 {
+	return routing.HashSlotForKey(verifC40ChannelOf(no), verifC40HashSlots)
+}
+
 // verifC40Proposer applies proposals straight to the real slot state machine.
 type verifC40Proposer struct {
-	mu    sync.Mutex
-	sm    multiraft.StateMachine
-	route func(key string) (uint16, error)
+	mu sync.Mutex
+	// one real state machine per Slot over the same node DB; the DB is keyed by
+	// hash slot, so a hash slot moved to another Slot keeps its durable rows
+	// (hash-slot data migration is taken as completed, see spec assumptions)
+	sms   map[uint32]multiraft.StateMachine
+	route func(key string) (uint32, uint16, error)
 	index uint64
 	calls int
 }
@@ -63,13 +107,13 @@ func (p *verifC40Proposer) Propose(ctx context.Context, req propose.Request) err
 func (p *verifC40Proposer) ProposeResult(ctx context.Context, req propose.Request) ([]byte, error) {
 	p.mu.Lock()
 	defer p.mu.Unlock()
-	hs, err := p.route(req.Key)
+	slot, hs, err := p.route(req.Key)
 	if err != nil {
 		return nil, err
 	}
 	p.index++
 	p.calls++
-	return p.sm.Apply(ctx, multiraft.Command{SlotID: 1, HashSlot: hs, Index: p.index, Term: 1, Data: req.Command})
+	return p.sms[slot].Apply(ctx, multiraft.Command{SlotID: multiraft.SlotID(slot), HashSlot: hs, Index: p.index, Term: 1, Data: req.Command})
 }
 
 type verifC40Env struct {
@@ -77,20 +121,98 @@ type verifC40Env struct {
 	db      *metadb.DB
 	prop    *verifC40Proposer
 	term    uint64
+	routes  *verifC40Routes
 	cleanup func()
 }
 
-func verifC40Snapshot() control.Snapshot {
-	return control.Snapshot{
-		Revision:     1,
+// verifC40Routes: independent model of the installed route table, following the
+// router's documented rules: UpdateControlSnapshot rebuilds the table and keeps
+// the observed leader/term only of Slots that are still present;
+// UpdateSlotLeaders ignores SlotID 0, Leader 0 and terms older than the known one.
+type verifC40Routes struct {
+	revision   uint64
+	hashToSlot []uint32
+	present    map[uint32]bool
+	leader     map[uint32]uint64
+	term       map[uint32]uint64
+}
+
+func (r *verifC40Routes) clone() *verifC40Routes {
+	out := &verifC40Routes{revision: r.revision, hashToSlot: slices.Clone(r.hashToSlot), present: map[uint32]bool{}, leader: map[uint32]uint64{}, term: map[uint32]uint64{}}
+	for k, v := range r.present {
+		out.present[k] = v
+	}
+	for k, v := range r.leader {
+		out.leader[k] = v
+	}
+	for k, v := range r.term {
+		out.term[k] = v
+	}
+	return out
+}
+
+// authority of a hash slot: leader node id, 0 = leaderless.
+func (r *verifC40Routes) authority(hs uint16) uint64 { return r.leader[r.hashToSlot[hs]] }
+
+func verifC40AuthClass(leader uint64) string {
+	switch leader {
+	case verifC40Local:
+		return "L"
+	case 0:
+		return "0"
+	}
+	return "R"
+}
+
+func (r *verifC40Routes) applySnapshot(revision uint64, hashToSlot []uint32, present map[uint32]bool) {
+	r.revision = revision
+	r.hashToSlot = slices.Clone(hashToSlot)
+	r.present = present
+	for slot := range r.leader {
+		if !present[slot] {
+			delete(r.leader, slot)
+			delete(r.term, slot)
+		}
+	}
+}
+
+func (r *verifC40Routes) applyLeaders(status []routing.SlotStatus) {
+	for _, st := range status {
+		if st.SlotID == 0 || st.Leader == 0 {
+			continue
+		}
+		if cur := r.term[st.SlotID]; cur != 0 && st.LeaderTerm < cur {
+			continue
+		}
+		r.leader[st.SlotID] = st.Leader
+		r.term[st.SlotID] = st.LeaderTerm
+	}
+}
+
+func (r *verifC40Routes) snapshot() control.Snapshot {
+	snap := control.Snapshot{
+		Revision:     r.revision,
 		ControllerID: 1,
 		Nodes: []control.Node{
 			{NodeID: 1, Addr: "127.0.0.1:1001", Roles: []control.Role{control.RoleData}, Status: control.NodeAlive},
 			{NodeID: 2, Addr: "127.0.0.1:1002", Roles: []control.Role{control.RoleData}, Status: control.NodeAlive},
+			{NodeID: 3, Addr: "127.0.0.1:1003", Roles: []control.Role{control.RoleData}, Status: control.NodeAlive},
 		},
-		Slots:     []control.SlotAssignment{{SlotID: 1, DesiredPeers: []uint64{1, 2}, ConfigEpoch: 1, PreferredLeader: 1}},
-		HashSlots: control.HashSlotTable{Revision: 1, Count: 2, Ranges: []control.HashSlotRange{{From: 0, To: 1, SlotID: 1}}},
+		HashSlots: control.HashSlotTable{Revision: r.revision, Count: uint16(len(r.hashToSlot))},
 	}
+	for _, slot := range verifC40SlotIDs {
+		if r.present[slot] {
+			snap.Slots = append(snap.Slots, control.SlotAssignment{SlotID: slot, DesiredPeers: []uint64{1, 2, 3}, ConfigEpoch: 1, PreferredLeader: uint64(slot)})
+		}
+	}
+	for hs := 0; hs < len(r.hashToSlot); hs++ {
+		if n := len(snap.HashSlots.Ranges); n > 0 && snap.HashSlots.Ranges[n-1].SlotID == r.hashToSlot[hs] {
+			snap.HashSlots.Ranges[n-1].To = uint16(hs)
+			continue
+		}
+		snap.HashSlots.Ranges = append(snap.HashSlots.Ranges, control.HashSlotRange{From: uint16(hs), To: uint16(hs), SlotID: r.hashToSlot[hs]})
+	}
+	return snap
 }
 
 type verifC40TB interface {
@@ -104,53 +226,65 @@ func verifC40NewEnv(rt verifC40TB, coalesce bool) *verifC40Env {
 		rm()
 		rt.Fatalf("open meta: %v", err)
 	}
-	sm, err := metafsm.NewStateMachineWithHashSlots(db, 1, []uint16{0, 1})
-	if err != nil {
-		db.Close()
-		rm()
-		rt.Fatalf("state machine: %v", err)
+	all := make([]uint16, verifC40HashSlots)
+	for i := range all {
+		all[i] = uint16(i)
+	}
+	sms := map[uint32]multiraft.StateMachine{}
+	for _, slot := range verifC40SlotIDs {
+		sm, err := metafsm.NewStateMachineWithHashSlots(db, uint64(slot), all)
+		if err != nil {
+			db.Close()
+			rm()
+			rt.Fatalf("state machine: %v", err)
+		}
+		sms[slot] = sm
 	}
 	node := &Node{
-		cfg:                     Config{NodeID: 1},
+		cfg:                     Config{NodeID: verifC40Local},
 		router:                  routing.NewRouter(),
 		messageEventStreamCache: newMessageEventStreamCache(0),
 	}
 	if coalesce {
 		node.messageEventFinishCoalescer = newMessageEventFinishCoalescer(defaultMessageEventFinishCoalesceWindow)
 	}
-	if err := node.router.UpdateControlSnapshot(verifC40Snapshot()); err != nil {
+	env := &verifC40Env{node: node, db: db, term: 9, cleanup: func() { _ = db.Close(); rm() }}
+	// initial table: every hash slot on Slot 1, led by the local node
+	env.routes = &verifC40Routes{revision: 1, hashToSlot: make([]uint32, verifC40HashSlots), present: map[uint32]bool{1: true}, leader: map[uint32]uint64{}, term: map[uint32]uint64{}}
+	for i := range env.routes.hashToSlot {
+		env.routes.hashToSlot[i] = 1
+	}
+	if err := node.updateRouteAuthorityTable(func() error {
+		if err := node.router.UpdateControlSnapshot(env.routes.snapshot()); err != nil {
+			return err
+		}
+		st := []routing.SlotStatus{{SlotID: 1, Leader: verifC40Local, LeaderTerm: env.term}}
+		node.router.UpdateSlotLeaders(st)
+		env.routes.applyLeaders(st)
+		return nil
+	}); err != nil {
 		db.Close()
 		rm()
-		rt.Fatalf("UpdateControlSnapshot: %v", err)
+		rt.Fatalf("install initial route: %v", err)
 	}
-	env := &verifC40Env{node: node, db: db, term: 9, cleanup: func() { _ = db.Close(); rm() }}
-	node.router.UpdateSlotLeaders([]routing.SlotStatus{{SlotID: 1, Leader: 1, LeaderTerm: env.term}})
-	env.prop = &verifC40Proposer{sm: sm, route: func(key string) (uint16, error) {
+	env.prop = &verifC40Proposer{sms: sms, route: func(key string) (uint32, uint16, error) {
 		r, err := node.router.RouteKey(key)
 		if err != nil {
-			return 0, err
+			return 0, 0, err
 		}
-		return r.HashSlot, nil
+		return r.SlotID, r.HashSlot, nil
 	}}
 	node.proposer = env.prop
 	node.started.Store(true)
 	return env
 }
 
-func (e *verifC40Env) hashSlot(rt verifC40TB) uint16 {
-	hs, err := e.prop.route(verifC40Channel)
-	if err != nil {
-		rt.Fatalf("route: %v", err)
-	}
-	return hs
-}
-
-// durable reads every stored lane of every message.
+// durable reads every stored lane of every message (straight from the node DB,
+// independent of the current route).
 func (e *verifC40Env) durable(rt verifC40TB) map[string]map[string]metadb.MessageEventState {
 	out := map[string]map[string]metadb.MessageEventState{}
-	hs := e.hashSlot(rt)
 	for _, no := range verifC40Msgs {
-		rows, err := e.db.ForHashSlot(hs).ListMessageEventStates(context.Background(), verifC40Channel, verifC40ChannelType, no, 100)
+		rows, err := e.db.ForHashSlot(verifC40HashSlotOf(no)).ListMessageEventStates(context.Background(), verifC40ChannelOf(no), verifC40ChannelType, no, 100)
 		if err != nil {
 			rt.Fatalf("ListMessageEventStates: %v", err)
 		}
@@ -162,17 +296,53 @@ func (e *verifC40Env) durable(rt verifC40TB) map[string]map[string]metadb.Messag
 	return out
 }
 
-// loseLeadership: the slot leader moves to node 2 and back; the authority-change
-// hook must drop the cached sessions of the lost hash slots.
-func (e *verifC40Env) loseLeadership() {
-	before := e.node.router.Table()
+// authorityOf: model authority (leader node id, 0 = leaderless) over a message's hash slot.
+func (e *verifC40Env) authorityOf(no string) uint64 { return e.routes.authority(verifC40HashSlotOf(no)) }
+
+// routeUpdate installs one route update the way production does
+// (Node.updateRouteAuthorityTable; the cache clearing for lost local authority
+// runs inside it), applies the same update to the model, cross-checks the
+// installed table against the model and returns the messages over whose hash
+// slot local authority was lost by this update.
+func (e *verifC40Env) routeUpdate(rt verifC40TB, real func(r *routing.Router) error, model func(m *verifC40Routes)) (lost []string, changed int) {
+	before := e.routes.clone()
+	model(e.routes)
+	if err := e.node.updateRouteAuthorityTable(func() error { return real(e.node.router) }); err != nil {
+		rt.Fatalf("C40 harness: route update rejected: %v", err)
+	}
+	table := e.node.router.Table()
+	for hs := uint16(0); hs < verifC40HashSlots; hs++ {
+		slot := table.HashToSlot[hs]
+		if slot != e.routes.hashToSlot[hs] || table.SlotLeaders[slot] != e.routes.authority(hs) {
+			rt.Fatalf("C40 harness: installed route of hash slot %d is slot=%d leader=%d, routing model says slot=%d leader=%d", hs, slot, table.SlotLeaders[slot], e.routes.hashToSlot[hs], e.routes.authority(hs))
+		}
+		if before.authority(hs) != e.routes.authority(hs) || before.hashToSlot[hs] != e.routes.hashToSlot[hs] {
+			changed++
+		}
+	}
+	for _, no := range verifC40Msgs {
+		hs := verifC40HashSlotOf(no)
+		if before.authority(hs) == verifC40Local && e.routes.authority(hs) != verifC40Local {
+			lost = append(lost, no)
+		}
+	}
+	return lost, changed
+}
+
+func (e *verifC40Env) setLeader(rt verifC40TB, slot uint32, leader uint64) []string {
 	e.term++
-	e.node.router.UpdateSlotLeaders([]routing.SlotStatus{{SlotID: 1, Leader: 2, LeaderTerm: e.term}})
-	e.node.publishRouteAuthorityChanges(before)
-	before = e.node.router.Table()
-	e.term++
-	e.node.router.UpdateSlotLeaders([]routing.SlotStatus{{SlotID: 1, Leader: 1, LeaderTerm: e.term}})
-	e.node.publishRouteAuthorityChanges(before)
+	st := []routing.SlotStatus{{SlotID: slot, Leader: leader, LeaderTerm: e.term}}
+	lost, _ := e.routeUpdate(rt, func(r *routing.Router) error { r.UpdateSlotLeaders(st); return nil }, func(m *verifC40Routes) { m.applyLeaders(st) })
+	return lost
+}
+
+// loseLeadership: the leader of the Slot serving verifC40Channel moves to node 2
+// and back (two route updates); returns the messages that lost local authority.
+func (e *verifC40Env) loseLeadership(rt verifC40TB) []string {
+	slot := e.routes.hashToSlot[verifC40HashSlotOf("m1")]
+	lost := e.setLeader(rt, slot, 2)
+	lost = append(lost, e.setLeader(rt, slot, verifC40Local)...)
+	return lost
 }
 
 // ---------------------------------------------------------------------------
@@ -223,10 +393,14 @@ func (m *verifC40Model) openLanes(no string) []string {
 	return out
 }
 
-// loseCache drops every session; lanes that held non-durable content are marked.
-func (m *verifC40Model) loseCache() int {
+// loseCache drops the sessions of the given messages (nil = every session);
+// lanes that held non-durable content are marked.
+func (m *verifC40Model) loseCache(only []string) int {
 	n := 0
 	for no, s := range m.sessions {
+		if only != nil && !slices.Contains(only, no) {
+			continue
+		}
 		for k, l := range s.lanes {
 			if !l.terminal && len(l.snapshot) > 0 {
 				if m.lost[no] == nil {
@@ -237,7 +411,11 @@ func (m *verifC40Model) loseCache() int {
 			}
 		}
 	}
-	m.sessions = map[string]*verifC40Session{}
+	for no := range m.sessions {
+		if only == nil || slices.Contains(only, no) {
+			delete(m.sessions, no)
+		}
+	}
 	return n
 }
 
@@ -360,6 +538,12 @@ type verifC40Stats struct {
 	cacheOnly, terminalDurable, finishOK, finishMiss, finishMissAfterLoss  int
 	finishOwnSnapshot, finishFlushed, losses, lossesWithContent, replays   int
 	maintenance, partialLossFinish, eventOnCachedTerminal, finishOKNoFlush int
+	// route schedules
+	routeUpdates, routeSnapshots, routeLeaderUpdates, routeIgnored, routeMultiChange     int
+	lossToLeaderless, lossToRemote, movedToUnknownLeader, keptOnLocalMove, untouchedKept int
+	notLocalLeaderless, notLocalRemote                                                   int
+	missAfterTwoStep, missAfterLeaderlessOnly, missAfterDirect                           int
+	regainWithLostContent                                                                int
 }
 
 type verifC40SM struct {
@@ -370,6 +554,9 @@ type verifC40SM struct {
 	nextID   int
 	ids      map[string][]string
 	history  []metadb.MessageEventAppend
+	// path[msg]: authority classes (L local, 0 leaderless, R remote) the message's
+	// hash slot went through since content was last cached for it, e.g. "L0RL"
+	path     map[string]string
 	avoidGap bool // generator avoids continuing a stream whose cached content was lost
 	excluded int  // continuations not generated because of avoidGap
 	known    bool
@@ -393,7 +580,7 @@ func (sm *verifC40SM) drawEvent(rt *rapid.T, types []string) metadb.MessageEvent
 		typ = rapid.SampledFrom([]string{metadb.EventTypeStreamFinish, metadb.EventTypeStreamFinish, metadb.EventTypeStreamClose, metadb.EventTypeStreamCancel}).Draw(rt, "typeAfterLoss")
 	}
 	e := metadb.MessageEventAppend{
-		ChannelID: verifC40Channel, ChannelType: verifC40ChannelType, ClientMsgNo: no,
+		ChannelID: verifC40ChannelOf(no), ChannelType: verifC40ChannelType, ClientMsgNo: no,
 		EventKey:   rapid.SampledFrom([]string{"main", "main", "tool", "aux"}).Draw(rt, "lane"),
 		EventType:  typ,
 		Visibility: metadb.VisibilityPublic,
@@ -436,7 +623,12 @@ var verifC40AllTypes = []string{
 // checkCache compares the real cache content with the model.
 func (sm *verifC40SM) checkCache(rt *rapid.T, what string) {
 	for _, no := range verifC40Msgs {
-		real := sm.env.node.messageEventStreamCache.states(metadb.MessageEventMessageKey{ChannelID: verifC40Channel, ChannelType: verifC40ChannelType, ClientMsgNo: no})
+		if sm.env.authorityOf(no) != verifC40Local {
+			// sessions of a hash slot this node is not authoritative for are not
+			// reachable by any request; they are judged when authority returns
+			continue
+		}
+		real := sm.env.node.messageEventStreamCache.states(metadb.MessageEventMessageKey{ChannelID: verifC40ChannelOf(no), ChannelType: verifC40ChannelType, ClientMsgNo: no})
 		got := map[string]metadb.MessageEventState{}
 		for _, s := range real {
 			got[s.EventKey] = s
@@ -444,6 +636,9 @@ func (sm *verifC40SM) checkCache(rt *rapid.T, what string) {
 		var want map[string]*verifC40Lane
 		if s := sm.model.sessions[no]; s != nil {
 			want = s.lanes
+		}
+		if lost := sm.model.lostLanes(no); len(want) == 0 && len(got) > 0 && len(lost) > 0 {
+			sm.fail(rt, "C40 violated (after %s): this node is Slot leader of %s's hash slot again and its stream cache still holds lanes %s cached before local authority over the hash slot was lost (authority path %s); a finish without snapshot would complete from this stale partial cache instead of failing closed", what, no, verifC40LaneSummary(got), sm.path[no])
 		}
 		if len(got) != len(want) {
 			sm.fail(rt, "C40 (leader cache) model mismatch after %s: message %s has cached lanes %v, model %v", what, no, got, want)
@@ -496,6 +691,29 @@ func (sm *verifC40SM) appendEvent(rt *rapid.T, e metadb.MessageEventAppend, tag 
 	ctx := context.Background()
 	res, err := sm.env.node.AppendMessageEvent(ctx, e)
 	after := sm.env.durable(rt)
+	if auth := sm.env.authorityOf(e.ClientMsgNo); auth != verifC40Local {
+		// This node is not the Slot leader of the message's hash slot: the event is
+		// not served here (leaderless: ErrNoSlotLeader; remote: forwarded — the
+		// harness has no transport, so the forward fails; in a cluster the event
+		// would be applied by the other node, out of this node's sight).
+		sm.log = append(sm.log, fmt.Sprintf("append%s while authority=%d %s -> err=%v", tag, auth, verifC40FmtEvent(e), err))
+		if err == nil {
+			sm.fail(rt, "C40 (leader cache): event %s was served locally although the hash slot's Slot leader is %d", verifC40FmtEvent(e), auth)
+		}
+		if auth == 0 && !errors.Is(err, ErrNoSlotLeader) {
+			sm.fail(rt, "C40 (leader cache): event %s on a leaderless route returned %v, want ErrNoSlotLeader", verifC40FmtEvent(e), err)
+		}
+		if sm.env.prop.calls != callsBefore || !verifC40DurableEqual(before, after) {
+			sm.fail(rt, "C40 (leader cache): event %s reached the durable store although this node is not the Slot leader", verifC40FmtEvent(e))
+		}
+		if auth == 0 {
+			sm.st.notLocalLeaderless++
+		} else {
+			sm.st.notLocalRemote++
+		}
+		sm.checkCache(rt, verifC40FmtEvent(e))
+		return
+	}
 	sm.log = append(sm.log, fmt.Sprintf("append%s %s -> {key=%s seq=%d status=%s} err=%v", tag, verifC40FmtEvent(e), res.EventKey, res.MsgEventSeq, res.Status, err))
 	sm.history = append(sm.history, e)
 	if !slices.Contains(sm.ids[e.ClientMsgNo], e.EventID) {
@@ -518,6 +736,9 @@ func (sm *verifC40SM) appendEvent(rt *rapid.T, e metadb.MessageEventAppend, tag 
 		}
 		sm.model.cacheOnly(e)
 		sm.st.cacheOnly++
+		if len(sm.model.lostLanes(no)) == 0 {
+			sm.path[no] = "L"
+		}
 
 	case e.EventType == metadb.EventTypeStreamFinish:
 		open := sm.model.openLanes(no)
@@ -534,6 +755,14 @@ func (sm *verifC40SM) appendEvent(rt *rapid.T, e metadb.MessageEventAppend, tag 
 			sm.st.finishMiss++
 			if len(lost) > 0 {
 				sm.st.finishMissAfterLoss++
+				switch path := sm.path[no]; {
+				case strings.HasPrefix(path, "L0R") && strings.HasSuffix(path, "L"):
+					sm.st.missAfterTwoStep++
+				case strings.HasPrefix(path, "L0") && !strings.Contains(path, "R") && strings.HasSuffix(path, "L"):
+					sm.st.missAfterLeaderlessOnly++
+				case strings.HasPrefix(path, "LR") && strings.HasSuffix(path, "L"):
+					sm.st.missAfterDirect++
+				}
 			}
 			break
 		}
@@ -640,29 +869,199 @@ func verifC40LaneSummary(lanes map[string]metadb.MessageEventState) string {
 	return strings.Join(parts, " ")
 }
 
+// afterRouteUpdate: bookkeeping + oracle shared by every route update. lost = the
+// messages whose hash slot had the local node as Slot leader before the update
+// and has not after it; exactly their sessions must be gone (checked for the
+// messages this node is authoritative for, and again whenever authority returns).
+func (sm *verifC40SM) afterRouteUpdate(rt *rapid.T, what string, lost []string, before map[string]map[string]metadb.MessageEventState, prevAuth map[string]uint64) {
+	for _, no := range verifC40Msgs {
+		auth := sm.env.authorityOf(no)
+		cls := verifC40AuthClass(auth)
+		if p := sm.path[no]; p != "" && !strings.HasSuffix(p, cls) {
+			sm.path[no] = p + cls
+		}
+		hadContent := false
+		if s := sm.model.sessions[no]; s != nil {
+			for _, l := range s.lanes {
+				hadContent = hadContent || (!l.terminal && len(l.snapshot) > 0)
+			}
+		}
+		switch {
+		case slices.Contains(lost, no) && hadContent && auth == 0:
+			sm.st.lossToLeaderless++
+		case slices.Contains(lost, no) && hadContent:
+			sm.st.lossToRemote++
+		case !slices.Contains(lost, no) && hadContent && prevAuth[no] == verifC40Local:
+			sm.st.untouchedKept++
+		}
+		if prevAuth[no] != verifC40Local && auth == verifC40Local && len(sm.model.lostLanes(no)) > 0 {
+			sm.st.regainWithLostContent++
+		}
+	}
+	n := 0
+	if len(lost) > 0 {
+		n = sm.model.loseCache(lost)
+		sm.st.losses++
+		if n > 0 {
+			sm.st.lossesWithContent++
+		}
+	}
+	sm.st.routeUpdates++
+	auths := ""
+	for _, no := range verifC40Msgs {
+		auths += fmt.Sprintf(" %s:hs%d->slot%d/leader%d", no, verifC40HashSlotOf(no), sm.env.routes.hashToSlot[verifC40HashSlotOf(no)], sm.env.authorityOf(no))
+	}
+	sm.log = append(sm.log, fmt.Sprintf("route update (%s):%s; local authority lost for %v, %d lanes with non-durable content lost", what, auths, lost, n))
+	if !verifC40DurableEqual(before, sm.env.durable(rt)) {
+		sm.fail(rt, "C40 (leader cache): route update changed the durable projection")
+	}
+	sm.checkCache(rt, "route update ("+what+")")
+}
+
+func (sm *verifC40SM) auths() map[string]uint64 {
+	out := map[string]uint64{}
+	for _, no := range verifC40Msgs {
+		out[no] = sm.env.authorityOf(no)
+	}
+	return out
+}
+
+// actRoute: one route update of the kinds production installs.
+func (sm *verifC40SM) actRoute(rt *rapid.T) {
+	env := sm.env
+	before := env.durable(rt)
+	prev := sm.auths()
+	kind := rapid.SampledFrom([]string{"leaders", "leaders", "leaders", "leaders", "snapshot", "snapshot", "snapshot", "ignored-status", "advance"}).Draw(rt, "routeKind")
+	var present []uint32
+	for _, slot := range verifC40SlotIDs {
+		if env.routes.present[slot] {
+			present = append(present, slot)
+		}
+	}
+	switch kind {
+	case "leaders":
+		// observed Slot leaders (refreshDefaultSlotLeaders / installObservedRemoteSlotLeaders):
+		// one or more Slots at once; half of the time aimed at a Slot serving a stream
+		var st []routing.SlotStatus
+		n := rapid.IntRange(1, 2).Draw(rt, "leaderCount")
+		for i := 0; i < n; i++ {
+			slot := rapid.SampledFrom(present).Draw(rt, "slot")
+			if rapid.Bool().Draw(rt, "aimAtStream") {
+				slot = env.routes.hashToSlot[verifC40HashSlotOf(rapid.SampledFrom(verifC40Msgs).Draw(rt, "aimMsg"))]
+			}
+			env.term++
+			st = append(st, routing.SlotStatus{SlotID: slot, Leader: rapid.SampledFrom([]uint64{1, 1, 1, 2, 2, 3}).Draw(rt, "leader"), LeaderTerm: env.term})
+		}
+		lost, changed := env.routeUpdate(rt, func(r *routing.Router) error { r.UpdateSlotLeaders(st); return nil }, func(m *verifC40Routes) { m.applyLeaders(st) })
+		sm.st.routeLeaderUpdates++
+		if changed > 1 {
+			sm.st.routeMultiChange++
+		}
+		sm.afterRouteUpdate(rt, fmt.Sprintf("slot leaders %+v", st), lost, before, prev)
+	case "ignored-status":
+		// a status without leader, or with an older term than the known one, is ignored
+		var known []uint32
+		for _, slot := range present {
+			if env.routes.term[slot] > 1 {
+				known = append(known, slot)
+			}
+		}
+		if len(known) == 0 {
+			rt.Skip("no Slot with a known leader term")
+		}
+		slot := rapid.SampledFrom(known).Draw(rt, "slot")
+		st := []routing.SlotStatus{{SlotID: slot, Leader: 0, LeaderTerm: env.term + 1}}
+		if rapid.Bool().Draw(rt, "staleTerm") {
+			st = []routing.SlotStatus{{SlotID: slot, Leader: rapid.SampledFrom([]uint64{1, 2, 3}).Draw(rt, "leader"), LeaderTerm: env.routes.term[slot] - 1}}
+		}
+		lost, changed := env.routeUpdate(rt, func(r *routing.Router) error { r.UpdateSlotLeaders(st); return nil }, func(m *verifC40Routes) { m.applyLeaders(st) })
+		if changed != 0 || len(lost) != 0 {
+			sm.fail(rt, "C40 harness: ignored slot status %+v changed the routing model", st)
+		}
+		sm.st.routeIgnored++
+		sm.afterRouteUpdate(rt, fmt.Sprintf("ignored slot status %+v", st), lost, before, prev)
+	case "advance":
+		rev := env.routes.revision + 1
+		lost, _ := env.routeUpdate(rt, func(r *routing.Router) error { r.AdvanceRevision(rev); return nil }, func(m *verifC40Routes) { m.revision = rev })
+		sm.afterRouteUpdate(rt, fmt.Sprintf("revision %d", rev), lost, before, prev)
+	case "snapshot":
+		// control snapshot (applySnapshot): hash slots rebalanced between Slots 1..3,
+		// Slots added / removed; a Slot that is new to the table has no observed leader
+		h2s := slices.Clone(env.routes.hashToSlot)
+		for hs := range h2s {
+			if rapid.IntRange(0, 2).Draw(rt, "move") == 0 {
+				h2s[hs] = rapid.SampledFrom(verifC40SlotIDs).Draw(rt, "toSlot")
+			}
+		}
+		if rapid.Bool().Draw(rt, "moveStream") { // aim at a stream's hash slot
+			h2s[verifC40HashSlotOf(rapid.SampledFrom(verifC40Msgs).Draw(rt, "aimMsg"))] = rapid.SampledFrom(verifC40SlotIDs).Draw(rt, "toSlot")
+		}
+		pres := map[uint32]bool{}
+		for _, slot := range h2s {
+			pres[slot] = true
+		}
+		for _, slot := range verifC40SlotIDs {
+			if !pres[slot] && env.routes.present[slot] && rapid.IntRange(0, 2).Draw(rt, "keepSlot") > 0 {
+				pres[slot] = true
+			}
+		}
+		rev := env.routes.revision + 1
+		oldH2S := slices.Clone(env.routes.hashToSlot)
+		lost, changed := env.routeUpdate(rt, func(r *routing.Router) error {
+			return r.UpdateControlSnapshot(env.routes.snapshot())
+		}, func(m *verifC40Routes) { m.applySnapshot(rev, h2s, pres) })
+		sm.st.routeSnapshots++
+		if changed > 1 {
+			sm.st.routeMultiChange++
+		}
+		for _, no := range verifC40Msgs {
+			hs := verifC40HashSlotOf(no)
+			if oldH2S[hs] != h2s[hs] {
+				switch {
+				case env.routes.authority(hs) == 0:
+					sm.st.movedToUnknownLeader++
+				case prev[no] == verifC40Local && env.routes.authority(hs) == verifC40Local:
+					sm.st.keptOnLocalMove++
+				}
+			}
+		}
+		sm.afterRouteUpdate(rt, fmt.Sprintf("control snapshot rev %d hashToSlot=%v slots=%v", rev, h2s, pres), lost, before, prev)
+	}
+}
+
 func (sm *verifC40SM) actLoss(rt *rapid.T) {
 	kind := rapid.SampledFrom([]string{"leadership", "leadership", "restore-reset", "restore-pause"}).Draw(rt, "lossKind")
 	before := sm.env.durable(rt)
+	if kind == "leadership" {
+		// Slot leader of m1's channel moves to node 2, then back (two updates)
+		slot := sm.env.routes.hashToSlot[verifC40HashSlotOf("m1")]
+		for _, leader := range []uint64{2, verifC40Local} {
+			prev := sm.auths()
+			lost := sm.env.setLeader(rt, slot, leader)
+			sm.afterRouteUpdate(rt, fmt.Sprintf("slot %d leader -> %d", slot, leader), lost, before, prev)
+		}
+		return
+	}
 	switch kind {
-	case "leadership":
-		sm.env.loseLeadership()
 	case "restore-reset":
 		sm.env.node.messageEventStreamCache.resetAfterRestore()
 	case "restore-pause":
 		sm.env.node.messageEventStreamCache.pauseForRestore()
 		// while paused, cache-only traffic is fenced
-		sm.nextID++
-		e := metadb.MessageEventAppend{ChannelID: verifC40Channel, ChannelType: verifC40ChannelType, ClientMsgNo: verifC40Msgs[0],
-			EventID: fmt.Sprintf("e%d", sm.nextID), EventKey: "main", EventType: metadb.EventTypeStreamDelta,
-			Visibility: metadb.VisibilityPublic, Payload: []byte(`{"kind":"text","delta":"z"}`)}
-		_, err := sm.env.node.AppendMessageEvent(context.Background(), e)
-		if !errors.Is(err, ErrMaintenance) {
-			sm.fail(rt, "C40 (leader cache): delta during restore pause returned %v, want ErrMaintenance", err)
+		if sm.env.authorityOf(verifC40Msgs[0]) == verifC40Local {
+			sm.nextID++
+			e := metadb.MessageEventAppend{ChannelID: verifC40Channel, ChannelType: verifC40ChannelType, ClientMsgNo: verifC40Msgs[0],
+				EventID: fmt.Sprintf("e%d", sm.nextID), EventKey: "main", EventType: metadb.EventTypeStreamDelta,
+				Visibility: metadb.VisibilityPublic, Payload: []byte(`{"kind":"text","delta":"z"}`)}
+			_, err := sm.env.node.AppendMessageEvent(context.Background(), e)
+			if !errors.Is(err, ErrMaintenance) {
+				sm.fail(rt, "C40 (leader cache): delta during restore pause returned %v, want ErrMaintenance", err)
+			}
+			sm.st.maintenance++
 		}
-		sm.st.maintenance++
 		sm.env.node.messageEventStreamCache.resumeAfterRestore()
 	}
-	n := sm.model.loseCache()
+	n := sm.model.loseCache(nil)
 	sm.st.losses++
 	if n > 0 {
 		sm.st.lossesWithContent++
@@ -692,7 +1091,9 @@ func (sm *verifC40SM) run(rt *rapid.T, k *kit.Case) {
 			sm.st.replays++
 			sm.appendEvent(rt, e, " (replay)")
 		},
-		"loss": sm.actLoss,
+		"loss":   sm.actLoss,
+		"route":  sm.actRoute,
+		"route2": sm.actRoute,
 	})
 	st := sm.st
 	k.Key(strings.Join(sm.log, "\n"))
@@ -708,6 +1109,21 @@ func (sm *verifC40SM) run(rt *rapid.T, k *kit.Case) {
 	k.LabelIf(st.maintenance > 0, "delta fenced during restore pause")
 	k.LabelIf(st.replays > 0, "replayed event")
 	k.LabelIf(st.eventOnCachedTerminal > 0, "cache-only event on a lane already terminal")
+	k.LabelIf(st.routeLeaderUpdates > 0, "route: observed slot leaders installed")
+	k.LabelIf(st.routeSnapshots > 0, "route: control snapshot installed")
+	k.LabelIf(st.routeIgnored > 0, "route: ignored slot status (no leader / older term)")
+	k.LabelIf(st.routeMultiChange > 0, "route: several hash slots changed in one update")
+	k.LabelIf(st.lossToLeaderless > 0, "route: local authority with cached content -> leaderless")
+	k.LabelIf(st.lossToRemote > 0, "route: local authority with cached content -> remote leader")
+	k.LabelIf(st.movedToUnknownLeader > 0, "route: stream's hash slot moved to a Slot with unknown leader")
+	k.LabelIf(st.keptOnLocalMove > 0, "route: stream's hash slot moved between two locally led Slots")
+	k.LabelIf(st.untouchedKept > 0, "route: update kept local authority of a stream with cached content")
+	k.LabelIf(st.regainWithLostContent > 0, "route: local authority returned after cached content was lost")
+	k.LabelIf(st.notLocalLeaderless > 0, "event refused on a leaderless route")
+	k.LabelIf(st.notLocalRemote > 0, "event not served locally (remote leader)")
+	k.LabelIf(st.missAfterTwoStep > 0, "finish failed closed after local->leaderless->remote->local")
+	k.LabelIf(st.missAfterLeaderlessOnly > 0, "finish failed closed after local->leaderless->local")
+	k.LabelIf(st.missAfterDirect > 0, "finish failed closed after local->remote->local")
 	k.LabelIf(st.partialLossFinish > 0, "KNOWN FINDING pattern: finish after partial cache loss completed")
 	k.Sample(func() any { return sm.log })
 }
@@ -726,7 +1142,7 @@ func TestVerifC40LeaderCache(t *testing.T) {
 	kit.Check(t, "C40", func(rt *rapid.T, k *kit.Case) {
 		env := verifC40NewEnv(rt, rapid.Bool().Draw(rt, "coalescer"))
 		defer env.cleanup()
-		sm := &verifC40SM{env: env, model: verifC40NewModel(), st: &verifC40Stats{}, ids: map[string][]string{}, avoidGap: avoid}
+		sm := &verifC40SM{env: env, model: verifC40NewModel(), st: &verifC40Stats{}, ids: map[string][]string{}, path: map[string]string{}, avoidGap: avoid}
 		sm.run(rt, k)
 		if avoid {
 			col.AddExtra("excluded_by_known_finding", int64(sm.excluded))
@@ -746,7 +1162,7 @@ func TestVerifC40PartialCacheLoss(t *testing.T) {
 	kit.Check(t, "C40", func(rt *rapid.T, k *kit.Case) {
 		env := verifC40NewEnv(rt, false)
 		defer env.cleanup()
-		sm := &verifC40SM{env: env, model: verifC40NewModel(), st: &verifC40Stats{}, ids: map[string][]string{}}
+		sm := &verifC40SM{env: env, model: verifC40NewModel(), st: &verifC40Stats{}, ids: map[string][]string{}, path: map[string]string{}}
 		sm.run(rt, k)
 		k.SetNonTrivial(sm.st.lossesWithContent > 0 && sm.st.finishOK+sm.st.finishMiss > 0)
 	})
@@ -772,7 +1188,7 @@ func TestVerifC40PartialCacheLossRepro(t *testing.T) {
 	if _, err := env.node.AppendMessageEvent(ctx, ev("e1", metadb.EventTypeStreamDelta, `{"kind":"text","delta":"a"}`)); err != nil {
 		t.Fatalf("delta 1: %v", err)
 	}
-	env.loseLeadership()
+	env.loseLeadership(t)
 	if _, err := env.node.AppendMessageEvent(ctx, ev("e2", metadb.EventTypeStreamDelta, `{"kind":"text","delta":"bb"}`)); err != nil {
 		t.Fatalf("delta 2: %v", err)
 	}
